@@ -303,6 +303,8 @@ inductive Op
   | sayCatch
   | safeApply (nargs declared : Nat) (body : Prog)
   | raise (msg : String)
+  | craise (msg : String)                       -- an error raised by the C code of an efun that has already called back
+                                                -- into LPC (e.g. load_object after the compiler's log_error apply): no tick
   | throw_ (v : String)
   | raiseLimit                                  -- eval cost exhausted: sets ES_MAX_EVAL_COST, raises
   | load (body : Prog)                          -- load_object: ++num_objects_this_thread ... --
@@ -499,6 +501,7 @@ def exec : Prog → M → Res
 /-- every op begins with one dispatched instruction (`tick`), which can be the injected fault -/
 def execOp : Op → M → Res
   | .cb k a d body, m0 => execCore (.cb k a d body) m0
+  | .craise msg, m0 => execCore (.craise msg) m0
   | o, m0 => if (tick m0).1 then raise injectedMsg (tick m0).2 else execCore o (tick m0).2
 
 def execCore : Op → M → Res
@@ -549,6 +552,7 @@ def execCore : Op → M → Res
       | none => .crash "value stack underflow" m2
       | some m3 => safeFinish (safeCtx nargs econ0) m.ctxs declared (thenTick (exec body m3))
   | .raise msg, m => raise msg m
+  | .craise msg, m => raise msg m
   | .throw_ v, m => throwVal v m
   | .raiseLimit, m =>
     raise "*Too long evaluation. Execution aborted." { m with errState := m.errState ||| Gen.C05.esMaxEvalCost }
